@@ -187,6 +187,7 @@ def attribution(obj, attr):
 
 
 @specs.parameter('obj', Yaqlized(can_index=True))
+@specs.parameter('key', yaqltypes.String())
 @specs.name('#indexer')
 def indexation(obj, key):
     """:yaql:operator indexer
